@@ -150,3 +150,88 @@ func init() {
 		NFact("hdr_off_crc", func() *big.Int { return hdrOffset("crc") }),
 	)
 }
+
+// ---- SizeUpperLimit constants (raftpb/raft_optimized.go, raftpb/update.go) ----
+
+// upperConsts returns, in source order, the values of the maximal constant
+// sub-expressions on the right-hand sides of the assignments and of the return
+// statements of recv.SizeUpperLimit.
+func upperConsts(file, recv string) []*big.Int {
+	p := loadPkg("raftpb")
+	fd := p.Func(recv, "SizeUpperLimit")
+	_ = file
+	var out []*big.Int
+	var walk func(e ast.Expr)
+	walk = func(e ast.Expr) {
+		var v *big.Int
+		func() {
+			defer func() {
+				if recover() != nil {
+					v = nil
+				}
+			}()
+			// identifiers are variables here, never constants
+			ok := true
+			ast.Inspect(e, func(n ast.Node) bool {
+				switch n.(type) {
+				case *ast.Ident, *ast.CallExpr, *ast.SelectorExpr:
+					ok = false
+				}
+				return ok
+			})
+			if ok {
+				v = p.Eval(e, 0)
+			}
+		}()
+		if v != nil {
+			out = append(out, v)
+			return
+		}
+		switch x := e.(type) {
+		case *ast.BinaryExpr:
+			walk(x.X)
+			walk(x.Y)
+		case *ast.ParenExpr:
+			walk(x.X)
+		}
+	}
+	ast.Inspect(fd.Body, func(n ast.Node) bool {
+		switch x := n.(type) {
+		case *ast.AssignStmt:
+			for _, r := range x.Rhs {
+				walk(r)
+			}
+		case *ast.ReturnStmt:
+			for _, r := range x.Results {
+				walk(r)
+			}
+		}
+		return true
+	})
+	return out
+}
+
+func upperConst(recv string, want int, idx int) func() *big.Int {
+	return func() *big.Int {
+		cs := upperConsts("", recv)
+		if len(cs) != want {
+			panic(fmt.Sprintf("%s.SizeUpperLimit: expected %d constants, found %v", recv, want, cs))
+		}
+		return cs[idx]
+	}
+}
+
+func init() {
+	u := units[len(units)-1]
+	u.Facts = append(u.Facts,
+		NFact("state_size_upper_limit", upperConst("State", 1, 0)),
+		NFact("eb_upper_base", upperConst("EntryBatch", 2, 0)),
+		NFact("eb_upper_per_entry", upperConst("EntryBatch", 2, 1)),
+		NFact("msg_upper_base", upperConst("Message", 3, 1)),
+		NFact("msg_upper_per_entry", upperConst("Message", 3, 2)),
+		NFact("bt_upper_base", upperConst("MessageBatch", 3, 1)),
+		NFact("bt_upper_per_msg", upperConst("MessageBatch", 3, 2)),
+		NFact("update_upper_head", upperConst("Update", 2, 0)),
+		NFact("update_upper_nosnapshot", upperConst("Update", 2, 1)),
+	)
+}
